@@ -729,7 +729,7 @@ func c15GenCase(r *vh.Rand) *c15Case {
 	var tps []c15PathInfo
 	c15TargetPaths(tt.rt, 4, nil, false, &tps)
 	nMap := []int{1, 2, 2, 3, 3, 4, 4, 5}[r.Intn(8)]
-	overlapStream := r.Chance(30)
+	overlapStream := r.Chance(22)
 	var chosen []c15PathInfo
 	for k := 0; k < nMap; k++ {
 		pi := r.Intn(nPred)
@@ -756,7 +756,22 @@ func c15GenCase(r *vh.Rand) *c15Case {
 			}
 			c.Stream = "overlap"
 		default:
-			to = tps[r.Intn(len(tps))]
+			// the valid stream: a target unrelated to the ones chosen so far
+			for try := 0; try < 12; try++ {
+				to = tps[r.Intn(len(tps))]
+				clash := false
+				for _, ch := range chosen {
+					if c15IsPrefix(ch.path, to.path) || c15IsPrefix(to.path, ch.path) {
+						clash = true
+					}
+				}
+				if !clash {
+					break
+				}
+				if try == 11 && c.Stream == "valid" {
+					c.Stream = "overlap"
+				}
+			}
 		}
 		chosen = append(chosen, to)
 		var from c15PathInfo
@@ -782,12 +797,23 @@ func c15GenCase(r *vh.Rand) *c15Case {
 		}
 		c.Decls[pi].Maps = append(c.Decls[pi].Maps, c15Map{From: append([]string{}, from.path...), To: append([]string{}, to.path...)})
 	}
-	// declarations without mappings: the whole output (an ordinary edge)
+	// a predecessor that got no mapping is dropped, except now and then: a declaration without
+	// mappings passes the whole output (an ordinary edge) and conflicts with every field mapping
+	var kept []c15Decl
 	for i := range c.Decls {
-		if len(c.Decls[i].Maps) == 0 && c.Stream == "valid" && nPred > 1 {
-			c.Stream = "overlap"
+		if len(c.Decls[i].Maps) > 0 {
+			kept = append(kept, c.Decls[i])
+		} else if r.Chance(12) {
+			kept = append(kept, c.Decls[i])
+			if nPred > 1 {
+				c.Stream = "overlap"
+			}
 		}
 	}
+	if len(kept) == 0 {
+		kept = c.Decls[:1]
+	}
+	c.Decls = kept
 	return c
 }
 
